@@ -60,6 +60,8 @@ def check(case):
     feats = _feature(rtx, raw, trailing)
     feat = "+".join(feats) or "plain"
     cls = ["nt:" + x for x in feats] + ["trail:" + tk, "segwit" if rtx["segwit"] else "legacy"]
+    if len(rtx["ins"]) == 1 and rtx["ins"][0]["txid"] == b"\x00" * 32 and rtx["ins"][0]["vout"] == 0xFFFFFFFF:
+        cls.append("nt:coinbase-shaped-segwit" if rtx["segwit"] else "nt:coinbase-shaped-legacy")
     if tk == "same":
         cls.append("nt:trail-same-tx")
     if len(trailing) == 1 and "trail-in-tx" in feats:
@@ -108,6 +110,13 @@ def check(case):
 @st.composite
 def cases(draw):
     tx = draw(gen_tx.tx_case("small"))
+    if draw(st.integers(0, 9)) == 0:
+        # coinbase-shaped: a single input spending the null outpoint (legacy or with the reserved-value witness)
+        tx["ins"] = tx["ins"][:1]
+        tx["ins"][0]["txid"] = "00" * 32
+        tx["ins"][0]["vout"] = 0xFFFFFFFF
+        if tx["segwit"]:
+            tx["ins"][0]["witness"] = ["00" * 32]
     tk = draw(st.sampled_from(["none", "byte", "byte", "substr", "substr", "prefix", "random", "tx2", "same"]))
     trail = {"kind": tk}
     if tk == "byte":
@@ -133,13 +142,24 @@ def cases(draw):
     return case
 
 
-def targets(tier):
+def _targets(tier):
     return [
         Target(
             "ids",
             check,
             strategy=lambda tier: cases(),
             budget={"quick": 6000, "thorough": 200000},
-            required=["nt:segwit-nonfinal-seq", "nt:trail-1byte-in-tx", "nt:trail-same-tx", "nt:in-block", "nt:block-dup-tx", "nt:trail-in-tx"],
+            required=["nt:segwit-nonfinal-seq", "nt:trail-1byte-in-tx", "nt:trail-same-tx", "nt:in-block", "nt:block-dup-tx", "nt:trail-in-tx", "nt:coinbase-shaped-segwit", "nt:coinbase-shaped-legacy"],
         )
     ]
+
+
+def targets(tier):
+    ts = _targets(tier)
+    if tier == "thorough":
+        # coverage-guided add-on (atheris/libFuzzer through Hypothesis' fuzz_one_input); skipped with a class label if atheris is missing
+        from vf import fuzz
+
+        for name in ['ids']:
+            ts.append(fuzz.campaign_target(PROPERTY, name, campaigns=16, runs=8000))
+    return ts
